@@ -117,6 +117,40 @@ def case(rng, n_grains=None, pair=None, regime=None, okind=None, lkind=None, fki
     return c
 
 
+def block_sizes(tier="quick", cap=None):
+    """Grain counts at which a size-dependent code path (block / stride / chunk / slice-bound logic, `[-0:]`
+    tails, power-of-two fast paths) changes behaviour: every power of two up to 2^14 (thorough: 2^16) with both
+    neighbours, and multiples of 64 / 100 / 128 / 256 / 1000 / 1024.  Added after the seeded change C03d (mean strain
+    energy summed in blocks of 128: wrong exactly when n_grains is a multiple of 128), which no generator
+    reached -- sizes were 1..64 and round decimal numbers."""
+    kmax = 14 if tier == "quick" else 16
+    s = set()
+    for k in range(kmax + 1):
+        s |= {2 ** k - 1, 2 ** k, 2 ** k + 1}
+    mult = {64: (1, 2, 3, 5), 100: (1, 2, 3, 5, 10), 128: (1, 2, 3, 5, 7), 256: (1, 3, 5), 1000: (1, 2, 3, 5, 10), 1024: (1, 2, 3, 5, 9)}
+    if tier != "quick":
+        mult = {64: range(1, 17), 100: range(1, 21), 128: range(1, 33), 256: range(1, 17), 1000: (1, 2, 3, 5, 10, 20, 50, 100),
+                1024: range(1, 33)}
+    for b, ks in mult.items():
+        s |= {b * k for k in ks}
+    return sorted(x for x in s if x >= 1 and (cap is None or x <= cap))
+
+
+def block_cases(rng, tier="quick", cap=None, both_regimes_upto=2049):
+    """one `derivatives` case per block-boundary size (both dislocation regimes up to `both_regimes_upto` grains,
+    alternating above), phase/fabric pairs and volume families rotating, Haar orientations, M* > 0"""
+    out = []
+    for i, n in enumerate(block_sizes(tier, cap)):
+        regimes = (4, 6) if n <= both_regimes_upto else ((4, 6)[i % 2],)
+        for j, regime in enumerate(regimes):
+            c = case(rng, n_grains=n, pair=VALID_PAIRS[(i + j) % 6], regime=regime, okind="haar",
+                     lkind=L_KINDS[(i + 2 * j) % len(L_KINDS)], fkind=("dirichlet", "uniform", "dominant")[(i + j) % 3])
+            c["M"] = max(c["M"], 1.0)
+            c["kinds"] = c["kinds"] + ("block",)
+            out.append(c)
+    return out
+
+
 def flat_inputs(c):
     return (list(c["O"].reshape(-1)) + list(c["f"]) + list(c["D"].reshape(-1))
             + list(c["L"].reshape(-1)) + list(c["S"].reshape(-1))
@@ -148,18 +182,125 @@ def activities(c):
     return np.abs(inv / tau), inv
 
 
-def near_discontinuity(c, rel=1e-9):
+def tie_class(c, rel=1e-9):
+    """How a case sits relative to the activity ties of the model:
+      "none"          no grain within `rel` (relative) of a tie, no tiny activities
+      "continuous"    near ties (gap > 0) only between the two or three MOST active systems of a grain.  The published model is
+                      continuous there: swapping the softest system with an (almost) equally active one multiplies every relative
+                      slip rate by 1/r and the fitted slip rate by r (|r| = 1 + O(gap)), so Schmid tensor x slip rate, the spin and
+                      |slip rate| (strain energy) change by O(n gap); the intermediate and the minimum system obey the same formula.
+                      Model and code may order such systems differently (rounding) yet must agree to O(n gap): compared at 1e-7.
+      "discontinuous" a near tie involving the LEAST active system (it is switched off: a jump of |r|^n), activities in (0, 1e-12)
+                      (exact-zero tests), enstatite at its 1e-15 threshold: excluded from value comparison and counted.
+    Exact ties (gap = 0) are resolved identically by the stable sort in model and implementation and are compared as usual."""
     act, inv = activities(c)
     if c["phase"] == 1:
-        # enstatite: threshold 1e-15 on |I_4|, exact-zero test on all invariants
         a = np.abs(inv[:, 3])
-        return bool(np.any((a > 0) & (np.abs(a - 1e-15) < 1e-17)))
+        return "discontinuous" if bool(np.any((a > 0) & (np.abs(a - 1e-15) < 1e-17))) else "none"
     s = np.sort(act, axis=1)
     gaps = np.diff(s, axis=1)
     scale = np.maximum(s[:, 1:], 1e-300)
-    tie = (gaps / scale < rel) & (s[:, 1:] > 0)
-    # ties between two exactly equal activities (e.g. both 0) are resolved identically by
-    # a stable sort in model and implementation; only *near* ties are unstable
-    tie &= gaps > 0
+    tie = (gaps / scale < rel) & (s[:, 1:] > 0) & (gaps > 0)
     tiny = (act > 0) & (act < 1e-12)
-    return bool(tie.any() or tiny.any())
+    if bool(tie[:, 0].any() or tiny.any()):
+        return "discontinuous"
+    return "continuous" if bool(tie[:, 1:].any()) else "none"
+
+
+# entry of the crystal-frame strain rate A D A^T that each slip invariant reads: I_1 = D'_01, I_2 = D'_02, I_3 = D'_21, I_4 = D'_20
+INV_ENTRY = {0: (0, 1), 1: (0, 2), 2: (1, 2), 3: (0, 2)}
+TIE_GAPS = (0.0, 1e-16, 3e-16, 1e-15, 1e-14, 1e-13, 1e-12, 1e-11, 1e-10, 5e-10)
+
+
+def near_tie_case(rng, fabric, sa, sb, opposite, gap, regime=4, ngen=2, symmetric=False):
+    """An olivine aggregate whose grain 0 has slip systems sa, sb (0-based, finite CRSS, different invariants) ALMOST equally
+    active: |I_a / tau_a| = |I_b / tau_b| (1 + gap) up to rounding, invariants of OPPOSITE (or equal) sign; the third
+    independent invariant mostly smaller (so that the tie is between the two most active systems), sometimes larger.
+    The crystal-frame strain rate is prescribed and rotated into the external frame by the grain's (Haar, or for
+    `symmetric` axis-aligned-times-rotation-about-a-crystal-axis) orientation: rounding of A^T D' A and of the invariants
+    computed back from it turns gap = 0 into a near tie at the 1e-16 level.  ngen generic grains follow."""
+    tau = CRSS[(0, fabric)]
+    ea, eb = INV_ENTRY[sa], INV_ENTRY[sb]
+    assert ea != eb and math.isfinite(tau[sa]) and math.isfinite(tau[sb])
+    Dp = np.zeros((3, 3))
+    sg = 1.0 if rng.random() < 0.5 else -1.0
+    va, vb = sg * tau[sa] * (1.0 + gap), (-sg if opposite else sg) * tau[sb]
+    Dp[ea] = Dp[ea[::-1]] = va
+    Dp[eb] = Dp[eb[::-1]] = vb
+    free = [e for e in ((0, 1), (0, 2), (1, 2)) if e not in (ea, eb)][0]
+    tfree = min(tau[k] for k, e in INV_ENTRY.items() if e == free)
+    if math.isfinite(tfree):
+        rho = float(rng.uniform(0.05, 0.9)) if rng.random() < 0.75 else float(rng.uniform(1.1, 3.0))
+        Dp[free] = Dp[free[::-1]] = tfree * rho * (1.0 if rng.random() < 0.5 else -1.0)
+    else:
+        Dp[free] = Dp[free[::-1]] = float(rng.normal())
+    d = rng.normal(size=3) * 0.3
+    Dp += np.diag(d - d.mean())
+    if symmetric:
+        A0 = SIGNED_PERMS[int(rng.integers(24))]
+    else:
+        A0 = rand_rot(rng, 1)[0]
+    D = A0.T @ Dp @ A0
+    D = (D + D.T) / 2
+    w = rng.normal(size=3)
+    L = D + np.array([[0.0, -w[2], w[1]], [w[2], 0.0, -w[0]], [-w[1], w[0], 0.0]])
+    sc = float(np.abs(np.linalg.eigvalsh(D)).max())
+    L, D = L / sc, D / sc
+    n = 1 + ngen
+    O = np.concatenate([A0[None], rand_rot(rng, ngen)]) if ngen else A0[None].copy()
+    c = dict(regime=int(regime), phase=0, fabric=int(fabric), ng=n, O=O,
+             f=volumes(rng, n, ("uniform", "dirichlet")[int(rng.integers(2))]), L=L, D=D, S=np.eye(3),
+             kinds=("near_tie", f"sys{sa + 1}~sys{sb + 1}:{'opposite' if opposite else 'same'}:gap{gap:g}" + (":symmetric" if symmetric else ""), "tie"))
+    c.update(params(rng))
+    c["M"] = max(c["M"], 1.0)
+    return c
+
+
+def rotation_about_axis_case(rng, fabric, opposite, regime=4, ngen=1, delta=0.0):
+    """The natural witness: a grain rotated about its [100] axis by the angle at which (010)[100] and (001)[100] are equally
+    active in simple shear along [100] (45 degrees for D-type olivine), cos / sin evaluated in binary64 (they differ in the last
+    bit), +- delta radians; opposite: the two invariants have opposite signs (rotation by +theta), else equal signs (-theta)."""
+    tau = CRSS[(0, fabric)]
+    t1, t2 = tau[0], min(tau[1], tau[3])
+    th = math.atan2(t2, t1) + delta           # I_1 = cos th, I_2 = I_4 = -+ sin th
+    if not opposite:
+        th = -th
+    cth, sth = math.cos(th), math.sin(th)
+    A0 = np.array([[1.0, 0.0, 0.0], [0.0, cth, sth], [0.0, -sth, cth]])
+    L = np.zeros((3, 3))
+    L[0, 1] = 2.0
+    n = 1 + ngen
+    O = np.concatenate([A0[None], rand_rot(rng, ngen)]) if ngen else A0[None].copy()
+    c = dict(regime=int(regime), phase=0, fabric=int(fabric), ng=n, O=O, f=volumes(rng, n, "uniform"), L=L, D=(L + L.T) / 2,
+             S=np.eye(3), kinds=("near_tie", f"rotation about [100] by atan(tau2/tau1){delta:+g}:{'opposite' if opposite else 'same'}", "tie"))
+    c.update(params(rng))
+    c["M"] = max(c["M"], 1.0)
+    return c
+
+
+def near_tie_cases(seed, tier="quick"):
+    """Near ties of slip-system activity (relative gap 0 .. 5e-10, NOT exact ties) for every olivine fabric, every pair of
+    systems with finite CRSS and independent invariants, opposite and equal signs of the two invariants, both regimes."""
+    rng = np.random.default_rng([int(seed), 0xC02D])
+    out = []
+    reps = 1 if tier == "quick" else 6
+    for rep in range(reps):
+        for fabric in range(5):
+            tau = CRSS[(0, fabric)]
+            fin = [k for k in range(4) if math.isfinite(tau[k])]
+            pairs = [(a, b) for a in fin for b in fin if a != b and INV_ENTRY[a] != INV_ENTRY[b]]
+            for i, (a, b) in enumerate(pairs):
+                for opposite in (True, False):
+                    gap = TIE_GAPS[int(rng.integers(len(TIE_GAPS)))]
+                    out.append(near_tie_case(rng, fabric, a, b, opposite, gap, regime=(4, 6)[(i + rep + opposite) % 2],
+                                             ngen=int(rng.integers(0, 4)), symmetric=bool(rng.random() < 0.25)))
+            for opposite in (True, False):
+                for delta in (0.0, float(rng.uniform(-1e-11, 1e-11)), float(rng.uniform(-2e-16, 2e-16))):
+                    out.append(rotation_about_axis_case(rng, fabric, opposite, regime=(4, 6)[int(rng.integers(2))],
+                                                        ngen=int(rng.integers(0, 3)), delta=delta))
+    return out
+
+
+def near_discontinuity(c, rel=1e-9):
+    """the case sits at a DISCONTINUITY of the model (see tie_class): excluded from value comparison"""
+    return tie_class(c, rel) == "discontinuous"
